@@ -255,9 +255,22 @@ def check_modules(chk, rng, tier):
                         l2 = compare("orbax", m2)
                         restored_paths = (fresh_leaves, l2)
                     # (3) the repository's restore helper
-                    ok3, m3 = chk.impl_call(f"C19:{name}:restore_checkpoint-raised", case, restore_checkpoint, path, make(70 + si))
+                    template = make(70 + si)
+                    tmpl_before = leaves_of(template)
+                    ok3, m3 = chk.impl_call(f"C19:{name}:restore_checkpoint-raised", case, restore_checkpoint, path, template)
                     if ok3:
                         compare("restore_checkpoint", m3)
+                        # the template only supplies the structure: it is not the restored module, keeps its own parameters, and a second
+                        # checkpoint restored through the same template leaves the first restored module as it was
+                        earlier = [c for c in ck.checkpoint_path[name][:-1]]
+                        if m3 is template or [a for (_, a), (_, b) in zip(tmpl_before, leaves_of(template)) if a != b]:
+                            chk.fail(f"C19:{name}:restore-aliases-template", "restore_checkpoint returned (or overwrote) the template it was given instead of a module of its own",
+                                     {"case": case})
+                        elif earlier:
+                            ok5, m5 = chk.impl_call(f"C19:{name}:restore_checkpoint-raised", case, restore_checkpoint, earlier[-1], template)
+                            if ok5:
+                                compare("restore_checkpoint-after-second-restore-through-the-template", m3)
+                                chk.count("restore_template_reuse_cases")
                 elif ok:
                     chk.fail(f"C19:{name}:no-checkpoint", "record_epoch with interval 1 wrote no checkpoint", {"case": case})
                 # (4) the deprecated StandardLogger's checkpoints
